@@ -126,6 +126,25 @@ pub fn hash_h() {
     kani::cover!(true);
 }
 """)
+    tw = P.tags.get("hash_twin")
+    if tw:
+        u.kani_oracle.append(tw["typedef"] + "\n" + tw["conv"])
+        u.kani_harness.append("""
+#[kani::proof]
+pub fn hash_twin_h() {
+    let a = oracle::mk(&mut KaniSrc);
+    let t = oracle::to_twin(&a);
+    let mut r = crate::src::Rec::new();
+    core::hash::Hash::hash(&t, &mut r);
+    assert!(!r.overflow, "recorder capacity");
+    assert!(oracle::hash_rec(&a) == r, "contract: the data Hash feeds does not depend on which other traits are educed on the type");
+    kani::cover!(true);
+}
+""")
+        u.kani_obls["hash_twin_h"] = ("%s/%s/Hash::hash/independent-of-other-traits" % (prop, P.pid),
+                                      "rec(a) == rec(the same value of a twin type that educes Hash alone, with the same Hash attributes)")
+        u.replay.append('{ let a = oracle::mk(s); let t = oracle::to_twin(&a); let mut r = crate::src::Rec::new(); core::hash::Hash::hash(&t, &mut r);\n'
+                        '      chk(out, "hash data == hash data of the Hash-only twin", oracle::hash_rec(&a), r); }')
     u.kani_obls["hash_h"] = ("%s/%s/Hash::hash/contract" % (prop, P.pid), "rec(a) == rec(b) <=> (variant, compared-field data)(a) == (..)(b); rec(a) begins or ends with the fields' data in declaration order")
     u.kani_bounded["hash_h"] = None
     u.replay.append('let a = oracle::mk(s); let b = oracle::mk(s);\n'
